@@ -1212,13 +1212,14 @@ class Nitool:
     IMPL_TIMEOUT = 120
     RULE = ("generated 3-D / 4-D NIfTI files with embedded extension (2x2 pixels, 1-3 slices, 1-3 time points): dump then embed "
             "(file / stdout, with and without removing), split along each dimension, merge of shuffled volumes with and without "
-            "--sort (ties included) and --clear-slices, lookup with and without index, inject with valid / invalid classification, "
-            "right / wrong value count, new / existing key with and without --force-overwrite, --type; non-trivial = inject, or a "
-            "merge with --sort")
+            "--sort (ties included) and --clear-slices, lookup with and without index of constant / per-slice / per-volume keys "
+            "including planted falsy values (0, 0.0, '', [], False) and None, inject with valid / invalid classification, "
+            "right / wrong value count, new / existing key with and without --force-overwrite, --type; non-trivial = inject, a "
+            "merge with --sort, or a lookup whose value is falsy")
 
     @staticmethod
     def gen_cases(rng, tier):
-        n = 110 if tier == 'quick' else 1200
+        n = 130 if tier == 'quick' else 1400
         out = []
         for i in range(n):
             r = rng.random()
@@ -1245,14 +1246,26 @@ class Nitool:
                 out.append({'kind': 'dump-embed', 'S': S, 'T': T, 'stdout': rng.random() < 0.3, 'remove': rng.random() < 0.5})
             elif r < 0.74:
                 out.append({'kind': 'split', 'S': S, 'T': T, 'dim': rng.choice([None, None, 2, 3 if T > 1 else 2, 0])})
-            elif r < 0.9:
+            elif r < 0.84:
                 nv = rng.randrange(2, 5)
                 keys = [rng.randrange(1, 4) for _ in range(nv)] if rng.random() < 0.6 else rng.sample(range(1, 20), nv)
                 out.append({'kind': 'merge', 'S': S, 'nv': nv, 'keys': keys, 'sort': rng.random() < 0.7, 'clear': rng.random() < 0.3,
                             'dim': rng.choice([None, 3])})
             else:
-                out.append({'kind': 'lookup', 'S': S, 'T': T, 'key': rng.choice(['EchoTime', 'RepetitionTime', 'InstanceNumber', 'Nope', 'Rows']),
-                            'index': rng.choice([None, None, [0, 0, 0] + ([T - 1] if T > 1 else []), [1, 1, S - 1] + ([0] if T > 1 else [])])})
+                # keys of the generated image plus keys planted by the harness whose values are FALSY (0, 0.0, '', [], False)
+                # or None, as constants and per slice / per volume: a value that prints as '0' or as an empty line must not
+                # be confused with "key not found" (nothing printed)
+                consts = ['EchoTime', 'RepetitionTime', 'Rows', 'Nope', 'ZeroInt', 'ZeroFloat', 'EmptyStr', 'EmptyList', 'FalseVal',
+                          'NullVal', 'OneInt', 'ZeroInt', 'EmptyStr', 'ZeroFloat']
+                varying = ['InstanceNumber', 'SliceInts', 'SliceStrs', 'SliceFloats'] + (['VolFloats', 'VolStrs', 'VolInts', 'EchoTime'] if T > 1 else [])
+                if rng.random() < 0.45:
+                    key, index = rng.choice(consts), rng.choice([None, None, [0, 0, 0] + ([0] if T > 1 else [])])
+                else:
+                    key = rng.choice(varying)
+                    index = [rng.randrange(2), rng.randrange(2), rng.randrange(S)] + ([rng.randrange(T)] if T > 1 else [])
+                    if rng.random() < 0.1:
+                        index = None
+                out.append({'kind': 'lookup', 'S': S, 'T': T, 'key': key, 'index': index})
         return out
 
     # ------------------------------------------------------------------------------------ run
@@ -1393,15 +1406,41 @@ class Nitool:
     @staticmethod
     def _lookup(case, dcmmeta):
         import nibabel as nb
-        _make_nii('in.nii.gz', case['S'], case['T'])
+        S, T = case['S'], case['T']
+        _make_nii('in.nii.gz', S, T)
+        # plant keys with falsy values through the API (constants, per slice, per volume)
+        w = dcmmeta.NiftiWrapper(nb.load('in.nii.gz'))
+        e = w.meta_ext
+        gc = e.get_class_dict(('global', 'const'))
+        gc.update({'ZeroInt': 0, 'ZeroFloat': 0.0, 'EmptyStr': '', 'EmptyList': [], 'FalseVal': False, 'NullVal': None, 'OneInt': 1})
+        ns = e.get_multiplicity(('global', 'slices'))
+        gs = e.get_class_dict(('global', 'slices'))
+        gs['SliceInts'] = [i % 2 for i in range(ns)]                        # 0, 1, 0, ...
+        gs['SliceStrs'] = ['' if i % 2 == 0 else 's%d' % i for i in range(ns)]
+        gs['SliceFloats'] = [0.0 if i % 3 == 0 else i / 2.0 for i in range(ns)]
+        if T > 1:
+            ts = e.get_class_dict(('time', 'samples'))
+            ts['VolFloats'] = [0.0 if i % 2 == 0 else 1.5 for i in range(T)]
+            ts['VolStrs'] = ['' if i % 2 == 0 else 'v' for i in range(T)]
+            ts['VolInts'] = [0 if i % 2 == 1 else 7 for i in range(T)]
+        e.check_valid()
+        w.to_filename('in.nii.gz')
         argv = ['lookup'] + (['-i', ','.join(str(x) for x in case['index'])] if case['index'] is not None else []) + [case['key'], 'in.nii.gz']
         r = _run_nitool(argv)
+        api = None
         try:
             v = dcmmeta.NiftiWrapper.from_filename('in.nii.gz').get_meta(case['key'], None if case['index'] is None else tuple(case['index']))
-            want = '' if v is None else str(v) + '\n'
+            # `print(v)` unless v is None: exactly str(v) and a newline -- '0', '0.0', 'False', '[]', and an EMPTY LINE for ''
+            buf = io.StringIO()
+            if v is not None:
+                print(v, file=buf)
+            want = buf.getvalue()
+            api = None if v is None else str(v)
             api_raised = None
-        except Exception as e:
-            want, api_raised = None, type(e).__name__
+        except Exception as ex:
+            want, api_raised = None, type(ex).__name__
+        r['api'] = api
+        r['api_repr'] = None if api_raised else repr(v)
         return dict(r, want=want, api_raised=api_raised)
 
     # ------------------------------------------------------------------------------------ Coq
@@ -1432,6 +1471,9 @@ class Nitool:
             return '(NCSplitNames %s %s %s)' % (cstr('sub/in.nii.gz'), cnat(len(obs['names'])), clist(cstr(n) for n in obs['names']))
         if k == 'split' and obs.get('rc') == 0:
             return '(NCSplitNames %s %s %s)' % (cstr('sub/in.nii.gz'), cnat(len(obs['names'])), clist(cstr(n) for n in obs['names']))
+        if k == 'lookup' and not obs.get('api_raised') and not obs.get('raised') and obs.get('rc') == 0:
+            return '(NCLookup %s %s %s)' % (copt(None if case['index'] is None else ','.join(str(x) for x in case['index']), cstr),
+                                            copt(obs['api'], cstr), cstr(obs['stdout']))
         if k == 'merge' and case['sort'] and obs.get('order') is not None and -1 not in obs['order']:
             return '(NCMergeOrder %s %s)' % (clist(cz(x) for x in case['keys']), clist(cnat(x) for x in obs['order']))
         return 'NCOracleOnly'
@@ -1518,7 +1560,9 @@ class Nitool:
             if obs['raised'] or obs['rc'] != 0:
                 return 'nitool lookup failed: %r %r' % (obs['rc'], obs['raised'])
             if obs['stdout'] != obs['want']:
-                return 'nitool lookup printed %r, get_meta returns %r' % (obs['stdout'], obs['want'])
+                return 'nitool lookup %s%s printed %r, but get_meta returns %s, i.e. print() gives %r' % (
+                    case['key'], '' if case['index'] is None else ' -i ' + ','.join(str(x) for x in case['index']),
+                    obs['stdout'], obs['api_repr'], obs['want'])
             return None
         return None
 
@@ -1528,7 +1572,8 @@ class Nitool:
 
     @staticmethod
     def nontrivial(case, obs):
-        return case['kind'] == 'inject' or (case['kind'] == 'merge' and case['sort'])
+        return case['kind'] == 'inject' or (case['kind'] == 'merge' and case['sort']) or \
+            (case['kind'] == 'lookup' and obs.get('api_repr') in ('0', '0.0', "''", '[]', 'False'))
 
     @staticmethod
     def shrink(case):
